@@ -132,11 +132,17 @@ WriteChecks(r) ==
         post == S!ContainerBits(cfg, r.m2)
         frameOk == /\ SubSeq(post, 1, cfg.o) = SubSeq(pre, 1, cfg.o)
                    /\ SubSeq(post, cfg.o + cfg.w + 1, cfg.c) = SubSeq(pre, cfg.o + cfg.w + 1, cfg.c)
-        narrowSignedEnumNeg == cfg.t = "EnumS" /\ cfg.w < cfg.u /\ v[S!VW] = 1
+        (* classification only: what EnumView::CouldWriteValue is known to compute for a signed  *)
+        (* enum -- the field is treated as an unsigned w-bit quantity of the container's integer  *)
+        (* type L, so negatives pass only when w = L = underlying width                           *)
+        lw == S!LeastWidth(cfg.c)
+        bugCould == IF v[S!VW] = 1 THEN (cfg.w = lw /\ lw >= cfg.u) ELSE B!FitsUnsigned(v, cfg.w)
     IN  << <<r.chk = 0, "emboss-check-fired", 0, r.chk>>,
            <<gotCould = res.could,
-             IF narrowSignedEnumNeg /\ res.could /\ ~gotCould
-             THEN "could-enum-signed-narrow-negative" ELSE "could-" \o cfg.t \o "-" \o r.sym,
+             IF cfg.t = "EnumS" /\ gotCould = bugCould
+             THEN (IF v[S!VW] = 1 THEN "could-enum-signed-narrow-negative"
+                   ELSE "could-enum-signed-narrow-unsigned-range")
+             ELSE "could-" \o cfg.t \o "-" \o r.sym,
              res.could, gotCould>>,
            (* TryToWrite on a complete field succeeds exactly when CouldWriteValue says so *)
            <<gotTried = gotCould, "try-differs-from-could", gotCould, gotTried>>,
